@@ -503,11 +503,15 @@ fn st_of(name: &str) -> St {
 }
 
 /// A pair looked like "lo-side scores below hi-side". Engines are not bit-reproducible (HashMap order can
-/// flip the engine's convergence test), so the verdict stands only if it survives two more engines per side.
+/// flip the engine's convergence test), so the verdict stands only if it survives more engines per side (min/max over all of them).
 async fn confirmed_lower(mon: &Monitor, h: &Hist, p: u32, lo_extra: Option<St>, lo_seen: f64, hi_extra: Option<St>, hi_seen: f64) -> bool {
     let pid = &h.ids[p as usize];
     let (mut lo_max, mut hi_min) = (lo_seen, hi_seen);
-    for _ in 0..2 {
+    // A flip of the convergence test moves scores by ~1e-6..1e-4. A gap that small is re-examined on five more
+    // engines per side: a history that sits on the threshold shows both outcomes on both sides with probability
+    // >= 1 - 0.25^6, and then the gap closes. Larger gaps get one more engine per side.
+    let rounds = if (hi_seen - lo_seen).abs() < 1e-2 { 5 } else { 1 };
+    for _ in 0..rounds {
         match (replay(h, lo_extra.map(|s| (p, s))).await, replay(h, hi_extra.map(|s| (p, s))).await) {
             (Some(a), Some(b)) => {
                 lo_max = lo_max.max(score(&a, pid));
@@ -941,6 +945,14 @@ fn directed() -> Vec<Hist> {
             hst.extra_replays = 40;
             hst
         },
+        // the same graph with one success on record for everybody: one more success leaves every factor unchanged, so
+        // H and H+success differ only by the order-dependent round count — the pair rule must not blame monotonicity
+        {
+            let e = [(0, 1), (0, 4), (0, 5), (1, 1), (1, 2), (1, 3), (2, 1), (2, 3), (2, 5), (3, 0), (3, 1), (3, 2), (3, 3), (3, 4), (3, 5), (4, 0), (4, 2), (4, 3), (5, 2), (5, 3), (5, 5)];
+            let mut ops: Vec<Op> = e.iter().map(|(a, b)| lt(*a, *b, true)).collect();
+            ops.extend((0..6).map(|i| Op::Stat { node: i, st: St::Correct }));
+            mk(6, &[1, 2, 5], ops)
+        },
         // only failures reported: nobody has positive standing
         mk(2, &[], vec![Op::Stat { node: 0, st: St::Failed }, Op::Stat { node: 1, st: St::Corrupt }]),
     ]
@@ -965,7 +977,7 @@ fn main() {
         });
     }
 
-    let per_shard = mon.by_tier(1200u64, 15_000);
+    let per_shard = mon.by_tier(1000u64, 15_000);
     vkit::run_shards(mon.shards(), mon.seed, |_i, mut rng| {
         let rt = checks::rt(true);
         rt.block_on(async {
